@@ -129,7 +129,9 @@ type peerStream struct {
 	rstSent   bool
 	sentMsgs  int
 	overSent  int64 // bytes sent beyond the advertised window on purpose
+	overAt    time.Time
 	scriptEnd bool
+	scriptIdle bool // the script is in a sleep/hang or finished: it owes the client nothing right now
 }
 
 type outItem struct {
@@ -165,6 +167,7 @@ type peerConn struct {
 	q       []outItem
 	delayed delayHeap
 	onesLeft int
+	fenceSeq int
 	dseq    uint64
 	dsig    chan struct{}
 	qsig    chan struct{}
@@ -743,6 +746,7 @@ func (pc *peerConn) onHeaders(f *http2.MetaHeadersFrame) {
 		defer pc.w.helpers.Done()
 		pc.runScript(ps, script)
 		ps.scriptEnd = true
+		ps.scriptIdle = true
 	}()
 }
 
@@ -913,12 +917,77 @@ func (pc *peerConn) sendBytes(ps *peerStream, b []byte, op SOp, end bool, force 
 	return true
 }
 
+// fence sends a PING and waits for its acknowledgement: everything the client
+// had queued before it read the PING (window updates, settings) has then been
+// received by the peer.
+func (pc *peerConn) fence(tag byte) bool {
+	pc.fenceSeq++
+	d := [8]byte{'O', tag, byte(pc.fenceSeq >> 8), byte(pc.fenceSeq)}
+	pc.put(outItem{kind: 'P', ping: d})
+	return pc.waitFor(func() bool { _, ok := pc.pingAcks[d]; return ok })
+}
+
+// overrun (class B): fill the client's stream window exactly, then send Over
+// more bytes. The application must be idle (not reading) so that the window
+// the peer knows after a fence is the window the client enforces.
+func (pc *peerConn) overrun(ps *peerStream, op SOp) bool {
+	if !ps.hdrSent {
+		pc.sendHeaders(ps, SOp{})
+	}
+	if !pc.fence(1) {
+		return false
+	}
+	r := pc.cliIWS + ps.sendUpd - ps.sent
+	if r < 0 {
+		r = 0
+	}
+	over := int64(op.Over)
+	if over < 1 {
+		over = 1
+	}
+	if r+over < 5 {
+		over = 5 - r
+	}
+	total := int(r + over)
+	body, info := pc.w.buildMsg(ps, SOp{N: total - 5})
+	info.overrun = true
+	pc.w.noteSent(ps, info)
+	ps.sentMsgs++
+	merge := int64(op.N)
+	if merge > r {
+		merge = r
+	}
+	pc.w.e.Probe("overrun_attempted")
+	if !pc.sendBytes(ps, body[:r-merge], op, false, false) {
+		return false
+	}
+	// a second fence: the window must not have moved while the first part was sent
+	if !pc.fence(2) {
+		return false
+	}
+	// the application must be idle: a pending read lets the client raise the window
+	if st := pc.w.rpcs[ps.rpc]; st == nil || st.inCall != "" || st.clientDone {
+		merge = -1
+	}
+	if left := pc.cliIWS + ps.sendUpd - ps.sent; left != merge {
+		pc.w.e.Probe("overrun_window_moved")
+		info.overrun = false
+		st := pc.w.rpcs[ps.rpc]
+		st.peerSent[ps.att][len(st.peerSent[ps.att])-1].overrun = false
+		return pc.sendBytes(ps, body[r-merge:], op, false, false)
+	}
+	ps.overAt = time.Now()
+	pc.w.e.Probe("overrun_sent")
+	return pc.sendBytes(ps, body[r-merge:], SOp{}, false, true)
+}
+
 func (pc *peerConn) runScript(ps *peerStream, script []SOp) {
 	e := pc.w.e
 	for oi, op := range script {
 		if pc.dead {
 			return
 		}
+		ps.scriptIdle = false
 		switch op.Op {
 		case "headers":
 			pc.sendHeaders(ps, op)
@@ -949,6 +1018,7 @@ func (pc *peerConn) runScript(ps *peerStream, script []SOp) {
 			pc.put(outItem{kind: 'R', sid: ps.id, code: http2.ErrCode(op.Code)})
 			pc.w.noteReturned(ps, -1-op.Code)
 		case "sleep":
+			ps.scriptIdle = true
 			d := op.Ns
 			if op.FirstK > 0 && ps.id > uint32(2*op.FirstK-1) {
 				d = op.Ns2 // not among the first K streams of this connection
@@ -972,6 +1042,10 @@ func (pc *peerConn) runScript(ps *peerStream, script []SOp) {
 			if !pc.waitFor(func() bool { return ps.recvBytes >= int64(op.N) || ps.endStream || ps.rstByClient }) {
 				return
 			}
+		case "overrun":
+			if !pc.overrun(ps, op) {
+				return
+			}
 		case "grant":
 			pc.grantStream(ps, int64(op.N))
 		case "frame":
@@ -986,6 +1060,7 @@ func (pc *peerConn) runScript(ps *peerStream, script []SOp) {
 			b, _ := hex.DecodeString(op.Hex)
 			pc.put(outItem{kind: 'X', data: b})
 		case "hang":
+			ps.scriptIdle = true
 			pc.waitFor(func() bool { return false })
 			return
 		}
